@@ -338,7 +338,7 @@ func (c *Checker) report(t0 time.Time, verbose bool) int {
 		c.engineErr = append(c.engineErr, fmt.Sprintf("only %d obligations generated for %s, expected at least %d (contracts detached or functions missing?)", total, id, c.Prop.MinObls))
 	}
 	for _, e := range c.Encs {
-		if e.fc != nil && len(e.fc.Loops) > 0 {
+		if e.fc != nil && len(e.fc.Loops) > 0 && e.order != nil {
 			for n := range e.fc.Loops {
 				if n > len(e.headers) {
 					c.engineErr = append(c.engineErr, fmt.Sprintf("%s: contract names loop %d but the function has %d loops", e.key, n, len(e.headers)))
